@@ -270,6 +270,12 @@ fn raw_lens(s: &Snap) -> BTreeMap<i32, usize> {
     }
     m
 }
+/// the complete wire form of a snapshot
+fn raw_ints(s: &Snap) -> Option<Vec<i32>> {
+    let mut tmp: Vec<i32> = vec![];
+    let mut out = vec![0i32; 20000];
+    s.write_to_ints(&mut tmp, &mut out).ok().map(|x| x.to_vec())
+}
 /// K09: some raw key occurs in both snapshots with different lengths
 fn k09(base: &BTreeMap<i32, usize>, new: &BTreeMap<i32, usize>) -> bool {
     base.iter().any(|(k, l)| new.get(k).map(|l2| l2 != l).unwrap_or(false))
@@ -493,6 +499,8 @@ struct Run<'a> {
     unknown_after_cap: u64,
     seen_max: i64, // the newest tick of any message that has reached the Manager since its last reset
     fresh_full: u64,
+    wire: BTreeMap<i32, Vec<i32>>, // tick -> complete wire form of the snapshot built for it (oracle-only histories)
+    empty_opt: bool, // oracle-only histories: an unchanged world is announced with SnapEmpty, as DDNet servers do
 }
 
 impl<'a> Run<'a> {
@@ -646,7 +654,21 @@ impl<'a> Run<'a> {
                 }
                 let n = s.msgs.len();
                 let tok = format!("s:{}:{}:{}:{}:{}:{}", s.tick, s.base, s.crc, n, fp_bytes(&s.bytes), api);
-                self.chan.extend(s.msgs);
+                let mut same_as_base = false;
+                if self.empty_opt {
+                    if let Some(w) = raw_ints(&snap) {
+                        same_as_base = s.base >= 0 && self.wire.get(&s.base) == Some(&w);
+                        self.wire.insert(s.tick, w);
+                        if self.wire.len() > 300 { let first = *self.wire.keys().next().unwrap(); self.wire.remove(&first); }
+                    }
+                }
+                if self.empty_opt && same_as_base && api_ok {
+                    // "nothing changed since the snapshot you acknowledged"
+                    self.kinds.insert("sent-empty".into());
+                    self.chan.push(Msg::E { tick: s.tick, dt: s.tick.wrapping_sub(s.base) });
+                } else {
+                    self.chan.extend(s.msgs);
+                }
                 tok
             }
             Err(p) => {
@@ -885,6 +907,8 @@ fn history(o: &mut Out, r: &mut Rng, p: &Profile, modelled: bool) {
         unknown_after_cap: 0,
         seen_max: -1,
         fresh_full: 0,
+        empty_opt: !modelled,
+        wire: BTreeMap::new(),
     };
     let send_every = 1 + r.below(3) as usize; // main.rs: every second tick
     // ack-starved histories: the snapshots right after the acknowledged one often differ from it only in a
@@ -897,9 +921,10 @@ fn history(o: &mut Out, r: &mut Rng, p: &Profile, modelled: bool) {
             break;
         }
         // the game
+        let stand_still = !modelled && round > 0 && r.chance(1, 6);
         for _ in 0..send_every {
             wg.neutral_only = starved_neutral && (1..=3).contains(&round);
-            wg.step(r);
+            if !stand_still { wg.step(r); }
             if p.big_values {
                 for e in wg.ents.iter_mut() {
                     for v in e.data.iter_mut() {
